@@ -7,7 +7,7 @@ open Datatypes
 let bytes_of_hex (h : string) : coq_N list =
   let n = S.length h / 2 in
   L.init n (fun i -> n_of_int (int_of_string ("0x" ^ S.sub h (2 * i) 2)))
-let bytes_of_string (s : string) : coq_N list = L.init (S.length s) (fun i -> n_of_int (Char.code s.[i]))
+let bytes_of_string (s : string) : coq_N list = L.init (S.length s) (fun i -> n_of_int (Char.code (S.get s i)))
 let string_of_bytes (l : coq_N list) : string =
   let b = Buffer.create 64 in L.iter (fun c -> Buffer.add_char b (Char.chr ((int_of_n c) land 255))) l; Buffer.contents b
 let hex_of_bytes (l : coq_N list) : string = S.concat "" (L.map (fun c -> Printf.sprintf "%02x" (int_of_n c)) l)
@@ -31,7 +31,7 @@ let dec_struct (s : string) : PtnFile.ptn =
       | [n; v] -> (bytes_of_hex n, bytes_of_hex v) | _ -> failwith "tag") (S.split_on_char ',' t) in
     let op w =
       let rest = S.sub w 1 (S.length w - 1) in
-      match w.[0] with
+      match S.get w 0 with
       | 'N' -> PtnFile.OMoveNumber (z_of_string rest)
       | 'M' -> (match S.split_on_char '/' rest with
                 | [m; md] -> (match S.split_on_char ':' m with
